@@ -783,6 +783,7 @@ Section ClientProofs.
     destruct (d_size d <? 0); [apply Hfail|].
     destruct ((d_size d =? 0) && present && negb (is_empty data)); [apply Hfail|].
     destruct ((0 <? d_size d) && _); [apply Hfail|].
+    destruct ((0 <? d_size d) && _); [apply Hfail|].
     eapply post_bind; [apply client_do_spec; auto; apply all_2xx_of; reflexivity|].
     intros w4 r' Hi4 Hr4 _. apply post_ret; auto.
   Qed.
